@@ -190,9 +190,21 @@ def _gates(prog, b):
                     if name in ("Whitespace", "LineComment"):
                         out.append(("ws" if name == "Whitespace" else "comment", i, tgt, t["else"]))
             continue
-        d = b.single_def(dl)
-        if d is None:
+        # the tested value: its one computed definition; further definitions may only be constants that take the failing
+        # edge (`a && b` stored in a bool: false on the short-circuit path, the comparison otherwise)
+        for _ in range(4):      # `_t = copy flag; switch(move _t)`
+            sd = b.single_def(dl)
+            src = op_local(sd[3]["use"]) if sd and sd[0] == "stmt" and "use" in sd[3] else None
+            if src is None:
+                break
+            dl = src
+        alld = b.defs().get(dl, [])
+        cdefs = [op_const_int(x[3]["use"]) for x in alld if x[0] == "stmt" and "use" in x[3] and op_const_int(x[3]["use"]) is not None]
+        computed = [x for x in alld if not (x[0] == "stmt" and "use" in x[3] and op_const_int(x[3]["use"]) is not None)]
+        if len(computed) != 1:
             continue
+        d = computed[0]
+        route = lambda v: targets.get(v, t["else"])
         if d[0] == "call":
             c = Body.callee(d[2]) or ""
             if c in ("std::cmp::PartialEq::eq", "std::cmp::PartialEq::ne") or c.endswith("PartialEq>::eq") or c.endswith("PartialEq>::ne"):
@@ -206,10 +218,11 @@ def _gates(prog, b):
                             kind_side = True
                 if kind_side and len(vals) == 1 and next(iter(vals)) in ("Whitespace", "LineComment"):
                     equal_tgt, differ_tgt = (other, zero) if c.endswith("::eq") else (zero, other)
-                    out.append(("ws" if "Whitespace" in vals else "comment", i, equal_tgt, differ_tgt))
+                    if all(route(v) == differ_tgt for v in cdefs):
+                        out.append(("ws" if "Whitespace" in vals else "comment", i, equal_tgt, differ_tgt))
             elif c.endswith("<impl str>::starts_with"):
                 pat = {str(o[1]) for o in prov.origins(b, d[2]["args"][1]) if o[0] == "const"}
-                if pat == {'"//"'}:
+                if pat == {'"//"'} and all(route(v) == zero for v in cdefs):
                     out.append(("slashes", i, other, zero))
         elif d[0] == "stmt" and d[3].get("binop") in ("Eq", "Ne", "Lt", "Le", "Gt", "Ge"):
             rv = d[3]
@@ -236,8 +249,50 @@ def _gates(prog, b):
                         x, y = (known[0], n) if ci == 0 else (n, known[0])
                         return {"Eq": x == y, "Ne": x != y, "Lt": x < y, "Le": x <= y, "Gt": x > y, "Ge": x >= y}[rv["binop"]]
                     edge = lambda n: other if holds(n) else zero
-                    if edge(2) == edge(3) == edge(7) and edge(1) != edge(2):
+                    if edge(2) == edge(3) == edge(7) and edge(1) != edge(2) and all(route(v) == edge(2) for v in cdefs):
                         out.append(("nl1", i, edge(1), edge(2)))
+    return out
+
+
+def _reach_ps(b, start, avoid=()):
+    """blocks reachable from `start` without entering `avoid`, following only the feasible arm of a switch whose operand is
+    a local that holds a known constant on that path (bool temporaries of `&&` / `||`, flags)"""
+    seen = set()
+    out = set()
+    st = [(start, frozenset())]
+    while st and len(seen) < 20000:
+        blk, env = st.pop()
+        if blk in avoid or b.is_cleanup(blk) or (blk, env) in seen:
+            continue
+        seen.add((blk, env))
+        out.add(blk)
+        e = dict(env)
+        for s_ in b.blocks[blk]["s"]:
+            a = s_.get("a")
+            if not a or a["p"]:
+                continue
+            rv = s_.get("rv") or {}
+            v = None
+            if "use" in rv:
+                v = op_const_int(rv["use"])
+                if v is None:
+                    src = op_local(rv["use"])
+                    v = e.get(src) if src is not None else None
+            if v is None:
+                e.pop(a["l"], None)
+            else:
+                e[a["l"]] = v
+        t = b.blocks[blk]["term"]
+        if t["k"] == "call" and t.get("dest") and not t["dest"]["p"]:
+            e.pop(t["dest"]["l"], None)
+        nxt = b.succ(blk)
+        if t["k"] == "switch":
+            dl = op_local(t["d"])
+            if dl is not None and dl in e:
+                nxt = [dict((v, tg) for v, tg in t["arms"]).get(e[dl], t["else"])]
+        fe = frozenset(e.items())
+        for n in nxt:
+            st.append((n, fe))
     return out
 
 
@@ -274,7 +329,7 @@ def doc_adjacency(ck, prog, eb):
                     if k != kind:
                         continue
                     per_iteration = not on_cycle(p, avoid={blk})
-                    wrong_edge = p in eb.reachable(fail_t, avoid={blk})
+                    wrong_edge = p in _reach_ps(eb, fail_t, avoid={blk})
                     if per_iteration and not wrong_edge:
                         ok = True
                 ck.ob("R19.4", "doc-line:%s" % kind, ok, "each collected line passes the test: %s" % what,
